@@ -32,7 +32,9 @@ def e2_jobs(prop, classes, tier, seed, timeout_s=None):
     return out
 
 
-CLASSES = ["contracts.C02_gate:ChoiFromHs", "contracts.C02_gate:HsFromChoi"]
+CLASSES = ["contracts.C02_gate:ChoiFromHs", "contracts.C02_gate:HsFromChoi",
+           "contracts.C02_state:DensityFromVec", "contracts.C02_state:VecFromDensity",
+           "contracts.C02_state:VecDensityRoundTrip"]
 
 
 def jobs(tier, seed):
